@@ -112,7 +112,8 @@ theorem C11_type_resolution (protoPath protoType rustType : Bytes) (compileWkt h
 example : ProstLaw (googlePrefix ++ [46, 69]) unitType false false := by unfold ProstLaw; decide
 example : ProstLaw [46, 97, 46, 82] [82] false true := by unfold ProstLaw; decide
 
-/-- **Each side is what the definition says**: the path is `/package.Service/Method` (package
+/-- *Transcription lemma (definitional)*: a case split over the two streaming flags, each case
+closed by unfolding the model.  **Each side is what the definition says**: the path is `/package.Service/Method` (package
 omitted when empty or when `emit_package(false)` was requested), the RPC kind is the one given
 by the two streaming flags, the message types are the definition's, the `GrpcMethod` extension
 names the same service and method. -/
@@ -123,6 +124,7 @@ theorem C11_client_conforms (s : Service) (o : Opts) (m : Method) :
   cases m.clientStreaming <;> cases m.serverStreaming <;>
     simp [path_spec, serviceName_spec, callNum, Spec.Codegen.kind]
 
+/-- *Transcription lemma (definitional)*, server side of `C11_client_conforms`. -/
 theorem C11_server_conforms (s : Service) (o : Opts) (m : Method) :
     Spec.Codegen.serverOk (Spec.Codegen.fullName (pkgShown s o) s.ident) (toMethodDef o m)
       (obsS (serverMethod s o m)) = true := by
@@ -138,7 +140,8 @@ private theorem all₂_map {α β γ} (p : β → γ → Bool) (f : α → β) (
     simp only [List.map_cons, Spec.Codegen.all₂, Bool.and_eq_true]
     exact ⟨h a List.mem_cons_self, ih (fun x hx => h x (List.mem_cons_of_mem _ hx))⟩
 
-/-- **The generator output satisfies the executable spec predicate** (the one the driver
+/-- *Transcription lemma (definitional)*: the three lemmas above, lifted over the method list.
+**The generator output satisfies the executable spec predicate** (the one the driver
 evaluates on the tokens extracted from the real generators), for every descriptor and option:
 advertised service name = path prefix, both sides conform to the definition, and they agree. -/
 theorem C11_conforms (s : Service) (o : Opts) :
@@ -161,7 +164,9 @@ theorem C11_conforms (s : Service) (o : Opts) :
     simp only [Function.comp, obsC, obsS, clientMethod, serverMethod]
     cases m.clientStreaming <;> cases m.serverStreaming <;> simp
 
-/-- **The advertised service name is the path prefix**: every arm literal (and so every client
+/-- *Transcription lemma (definitional)*: `formatMethodPath` is written as
+`"/" ++ formatServiceName ++ "/" ++ ident`, as `lib.rs::format_method_path` is.
+**The advertised service name is the path prefix**: every arm literal (and so every client
 path) is `"/" ++ SERVICE_NAME ++ "/" ++ method`, i.e. exactly the route C10's router keys on. -/
 theorem C11_service_name_is_prefix (s : Service) (o : Opts) (m : Method) :
     (serverMethod s o m).literal = Router.routePrefix (serviceNameConst s o) ++ m.ident ∧
